@@ -19,10 +19,13 @@ GCC_FLAGS = ['-fsyntax-only', '-std=gnu11', '-w']
 # ---- only by the structural predicate below AND only if the lead listed the id in known_findings.json; otherwise it is a VIOLATION.
 F_FATAL = 'C24-fatal-sanity-errors-do-not-stop-ptgpp'
 F_TREMOTE = 'C24-type-remote-on-collection-input-asserts'
-F_TERN2 = 'C24-ternary-two-collection-inputs'
+F_TERN2 = 'C24-ternary-two-collection-refs'
+F_ARITY = 'C24-task-call-with-extra-arguments-crashes'
 F_IADER = 'C24-ia-derived-param-followed-by-param'
 
-RE_TERN2 = re.compile(r'<-[^\n]*\?\s*[A-Za-z_]\w*\s*\([^()\n]*\)\s*:\s*[A-Za-z_]\w*\s*\(')
+RE_TERN2 = re.compile(r'(?:<-|->)[^\n]*\?\s*[A-Za-z_]\w*\s*\([^()\n]*\)\s*:\s*[A-Za-z_]\w*\s*\(')
+RE_DECL = re.compile(r'^([A-Za-z_]\w*)\s*\(([^()\n]*)\)', re.M)
+RE_CALL = re.compile(r'(?:<-|->|\?|:)\s*[A-Za-z_]\w*\s+([A-Za-z_]\w*)\s*\(([^()\n]*)\)')
 RE_TREMOTE = re.compile(r'<-[^\n]*(?:<-|\?|:)\s*[A-Za-z_]\w*\s*\([^()\n]*\)[^\n]*\[[^\]\n]*type_remote')
 
 
@@ -32,6 +35,11 @@ def features(text, base_feats=()):
         f.add('tern2coll')
     if RE_TREMOTE.search(text):
         f.add('type_remote_on_collection_input')
+    decl = {m.group(1): len([a for a in m.group(2).split(',') if a.strip()]) for m in RE_DECL.finditer(text)}
+    for m in RE_CALL.finditer(text):
+        n = len([a for a in m.group(2).split(',') if a.strip()])
+        if m.group(1) in decl and n > decl[m.group(1)]:
+            f.add('call_with_extra_args')
     return f
 
 
@@ -44,6 +52,8 @@ def attribute(t, r):
         return F_TERN2
     if out == 'accepted-not-compilable' and 'ia_derived' in t['feats'] and re.search(r'__\w+_(min|max)\W+undeclared', msg):
         return F_IADER
+    if out == 'signal' and 'call_with_extra_args' in t['feats'] and ('Wrong number of arguments when calling' in diag or not diag.strip()):
+        return F_ARITY
     if out in ('accepted-not-compilable', 'signal') and 'Fatal Error on' in diag:
         return F_FATAL
     return None
@@ -99,7 +109,25 @@ def build_texts(lim, tier):
         if h in seen:
             continue
         seen.add(h); R.append(t)
-    return R
+    # order: round-robin over (over-limit, at/near a limit, small feature programs, mutants, the rest) so that a deadline cut
+    # leaves every class represented; inside a class the generation order is kept
+    def klass(t):
+        if t['cls'] == 'over':
+            return 0
+        if t['cls'] == 'mutant':
+            return 3
+        if re.match(r'(k[A-Z]|props|opts|derived)', t['name']):
+            return 2
+        if re.search(r'(%d|%d|%d|%d)(_|$|@)' % (lim['MAX_PARAM_COUNT'] - 1, lim['MAX_PARAM_COUNT'], lim['MAX_DEP_IN_COUNT'] - 1, lim['MAX_DEP_IN_COUNT']), t['name']):
+            return 1
+        return 4
+    buckets = [[t for t in R if klass(t) == k] for k in range(5)]
+    out = []
+    while any(buckets):
+        for b in buckets:
+            if b:
+                out.append(b.pop(0))
+    return out
 
 
 def norm_diag(s):
@@ -192,7 +220,7 @@ def check(ctx):
     build, ptgpp = _env(ctx)
     lim = limits(build)
     texts = build_texts(lim, ctx.tier)
-    budget = 75 if ctx.tier == 'quick' else 1080
+    budget = 58 if ctx.tier == 'quick' else 1000
     t0 = time.time()
     root = '/tmp/c24-%d' % os.getpid()
     shutil.rmtree(root, ignore_errors=True)
